@@ -12,7 +12,11 @@ def key(v, ev):
     mode = "512" if info.get("nf") == 2 else "256"
     if pred in ("CompressedDecodesToCells", "RawDecodesToCells", "EngineDecodeEq"):
         # relation + character mode + what differs (only the font-page bit / other cell content / shape)
-        return f"{pred}:{mode}:{info.get('kind')}"
+        k = f"{pred}:{mode}:{info.get('kind')}"
+        if "fontpage" in str(info.get("kind")) and pred != "RawDecodesToCells":
+            # in which run types of the compressed stream the font page is lost (3 = character/attribute runs)
+            k += ":runtypes=" + "".join(str(t) for t in sorted(info.get("runs") or []))
+        return k
     if pred == "ValidStream":
         return f"ValidStream:{info.get('why')}"
     if pred == "HeaderOk":
